@@ -391,7 +391,10 @@ pub fn run(seed: u64, thorough: bool, out_dir: &std::path::Path, scratch: &std::
                 rxs.push(node.deliver(b));
                 if i % 5 == 4 { std::thread::sleep(std::time::Duration::from_millis(2)); }
             }
-            for rx in rxs { let _ = rx.recv_timeout(std::time::Duration::from_secs(20)); }
+            // every block gets its verdict eventually; a loaded machine only makes it later
+            let mut timed_out = 0;
+            for rx in rxs { if rx.recv_timeout(std::time::Duration::from_secs(180)).is_err() { timed_out += 1; } }
+            if timed_out > 0 { *out.stats.entry("concurrent_deliveries_without_verdict_in_time".into()).or_default() += timed_out; }
             stop.store(true, std::sync::atomic::Ordering::Relaxed);
             let res = reader.join().unwrap();
             node.stop();
